@@ -698,6 +698,12 @@ def catalogue(ctx, d, datadir):
             if expect == "ok":
                 mf[present] = b"DATA" * 50
             scenario(tag, [("a", src, expect, (True, src, mf, None))], None, keep)
+        # the same unreadable data file named by several inputs of one invocation: each of them fails, none is compiled
+        # with something else in its place
+        for tag, path in (("missing", os.path.join(datadir, "nosuch.bin")), ("directory", dfdir)):
+            srcs = [S + ('u.server_dgram(io::file("%s"));\nu.client_dgram("afterwards-%d");\n' % (path, j)).encode() for j in range(3)]
+            scenario("datafile-%s-shared-by-three-inputs" % tag,
+                     [(nm, sj, "fail", (True, sj, dict(mfiles(small)), None)) for nm, sj in zip("abc", srcs)], None, keep)
         # file NAMES that are not ASCII / not valid UTF-8 (paths are bytes: OsStr::from_bytes): missing, a directory,
         # and an existing readable file, which must be read correctly
         for ntag, nm in BYTE_NAMES:
